@@ -87,15 +87,17 @@ class SamplerCase(Case):
                 self.calls = 0
 
             def random(self, n):
-                call = self.calls
-                self.calls += 1
                 log["random"].append(n)
-                u = inp["d"][call].reshape(-1, case.dim)  # row i = point i of the sequence
-                if n > u.shape[0]:  # more points than are handed out: pad (the surplus is never claimed)
-                    pad = np.empty((n - u.shape[0], case.dim), dtype=object)
+                # the sequence continues over calls: row i of the flattened symbol table = point i
+                u = inp["d"].reshape(-1, case.dim)
+                start = getattr(self, "pos", 0)
+                self.pos = start + n
+                rows = u[start:start + n]
+                if rows.shape[0] < n:  # more points than are ever handed out: pad (the surplus is never claimed)
+                    pad = np.empty((n - rows.shape[0], case.dim), dtype=object)
                     pad.fill(SR(Fraction(1, 2)))
-                    u = np.vstack([u, pad])
-                return env.arr(u[:n])
+                    rows = np.vstack([rows, pad]) if rows.size else pad
+                return env.arr(rows)
 
         def stub_scale(sample, l_bounds, u_bounds):
             log["scale"].append((np.asarray(l_bounds), np.asarray(u_bounds)))
@@ -345,6 +347,8 @@ def build_cases(tier):
     add(method="uniform", N=2, R=2, P=2, options={"loc": -0.5, "scale": 1.0})
     add(method="truncnorm", N=1, R=2, P=2, options={"a": -2.0, "b": 2.0})
     add(method="lhs", N=3, R=3, P=2, mask=(False, True, True), sampler_map=(0, 1, 1), which=1, nsamplers=2)
+    add(method="lhs", N=1, R=13, P=10)                      # 130 points: one design, asked for in one piece
+    add(method="halton", N=1, R=1, P=140, shared=True)
     add(PipelineCase, methods=("uniform", "uniform"), sampler_map=(0, 1, 0), N=3)
     add(PipelineCase, methods=("truncnorm", "sobol"), sampler_map=(1, 0, 1), N=3, mask=(True, True, False))
     add(PipelineCase, methods=("lhs", "uniform", "halton"), sampler_map=(2, 0, 1, 0), N=4, evals=3)
